@@ -39,7 +39,7 @@ type popCase struct {
 	Entries []entry
 	Sibling bool // also a "<name>.wf" appender in the same directory
 	Second  bool // run a second scan of the same appender after more expired files appeared
-	DirForm int  // how FileDir is spelled: 0 as is, 1 trailing slash, 2 doubled slash, 3 "/./" inside, 4 relative with "./"
+	DirForm int  // how FileDir is spelled: 0 as is, 1 trailing slash, 2 doubled slash, 3 "/./" inside, 4 relative with "./", 5 a symbolic link to it
 	Outage  bool // an earlier scan of the same appender found the directory gone (listing failed)
 }
 
@@ -68,7 +68,7 @@ func genCase(t *rapid.T) popCase {
 		Sibling: rapid.Bool().Draw(t, "sibling"),
 		Second:  rapid.Bool().Draw(t, "secondScan"),
 		Outage:  rapid.IntRange(0, 3).Draw(t, "outageScan") == 0,
-		DirForm: rapid.SampledFrom([]int{0, 0, 1, 2, 3, 4}).Draw(t, "dirForm"),
+		DirForm: rapid.SampledFrom([]int{0, 0, 1, 2, 3, 4, 5}).Draw(t, "dirForm"),
 	}
 	if rapid.Bool().Draw(t, "anyAge") {
 		c.MaxAge = rapid.IntRange(1, 720).Draw(t, "maxAgeAny")
@@ -86,7 +86,14 @@ func genCase(t *rapid.T) popCase {
 	for i := 0; i < n; i++ {
 		var e entry
 		l := fmt.Sprintf("e%d", i)
-		switch rapid.IntRange(0, 9).Draw(t, l+"kind") {
+		switch rapid.IntRange(0, 10).Draw(t, l+"kind") {
+		case 10:
+			// another program's file whose name differs from ours in letter case only (the file system is case-sensitive)
+			v := strings.ToUpper(c.Name[:1]) + c.Name[1:]
+			if rapid.Bool().Draw(t, l+"allUpper") || v == c.Name {
+				v = strings.ToUpper(c.Name)
+			}
+			e = entry{Name: v + "." + digits14.Draw(t, l+"ts"), Comment: "foreign: differs in letter case"}
 		case 0, 1, 2:
 			e = entry{Name: c.Name + "." + digits14.Draw(t, l+"ts"), Comment: "own"}
 		case 3:
@@ -135,6 +142,13 @@ func spell(dir string, form int) string {
 	case 3:
 		i := strings.LastIndex(dir, "/")
 		return dir[:i] + "/./" + dir[i+1:]
+	case 5:
+		// the configured directory is a symbolic link to the real one
+		link := dir + ".lnk"
+		_ = os.Remove(link)
+		if os.Symlink(dir, link) == nil {
+			return link
+		}
 	case 4:
 		if wd, err := os.Getwd(); err == nil {
 			if rel, err := filepath.Rel(wd, dir); err == nil {
